@@ -1,6 +1,4 @@
-mod compile;
-mod export;
-mod prog;
+use cc_conform::{compile, export, prog};
 
 use serde_json::{json, Value as Json};
 use std::io::{BufRead, Write};
